@@ -901,6 +901,66 @@ def add_prefix_readers(pack):
     c.replay_without_model = True
 
 
+    # ---- _read_next: which reader a character selects; the end of the text; a stray closing delimiter
+    def next_setup(eng, st):
+        psetup(eng, st)
+
+        def by_contract(fn):
+            def model(e, s, args, k):
+                # any of the form readers (by contract): returns something or raises a syntax error
+                s.ghost["reader_called"] = list(s.ghost.get("reader_called", [])) + [fn]
+                s2 = s.copy()
+                res = V.fresh_val("form")
+                s.assume(e.external_ref_fact(s, res))
+                yield s, SV(res)
+                yield s2, Raise(Exc(rd.SyntaxError, ("syntax error in the form",), note="raised by the selected reader"))
+
+            return Model(f"{fn.__name__} (by contract)", model)
+
+        for fn in [f for f in rd._read_dispatch.values() if f is not None and f.__name__ != "<lambda>"] + [rd._read_num, rd._read_next_consuming_whitespace, rd._read_kw, rd._read_sym]:
+            eng.models[id(fn)] = by_contract(fn)
+
+    c = pack.contract("basilisp.lang.reader:_read_next")
+    c.param("ctx", OBJ(RC))
+    c.setup(next_setup)
+    c.requires("the stream reader is well-formed", lambda a: WF(a.eng, a.pre.st, reader_of(a)))
+    c.raises(rd.SyntaxError)
+
+    def selected(a):
+        called = a.post.st.ghost.get("reader_called", [])
+        return called
+
+    def next_post(a):
+        pre, post = a.pre.st, a.post.st
+        ch = CH(pos(pre, reader_of(a)))
+        called = selected(a)
+        if len(called) > 1:
+            return z3.BoolVal(False)
+        if not called:
+            return z3.And(ch == V.mk_str(""), a.result == fld(pre, a.ctx, "_eof"), pos(post, reader_of(a)) == pos(pre, reader_of(a)))
+        fn = called[0]
+        table = [(k, f) for k, f in rd._read_dispatch.items() if f is not None and f.__name__ != "<lambda>"]
+        keys = [k for k, f in table if f is fn]
+        right = [z3.Or(*[ch == V.mk_str(k) for k in keys])] if keys else []  # a reader of the table runs only for its own character(s)
+        return z3.And(ch != V.mk_str(""), *right)
+
+    # (a stray closing delimiter is handed to _read_sym, which rejects the empty token: still a plain syntax error)
+    c.ensures("at the end of the text the eof value is returned and nothing is consumed; otherwise exactly one reader is run, and a reader of the dispatch table only "
+              "for its own character", next_post)
+
+    def next_raise(a):
+        pre = a.pre.st
+        ch = CH(pos(pre, reader_of(a)))
+        if selected(a):
+            return z3.BoolVal(True)
+        # the reader's own error: a character that starts no form
+        return z3.And(ch != V.mk_str(""), z3.BoolVal(not (a.exc.pycls is not None and issubclass(a.exc.pycls, rd.UnexpectedEOFError))))
+
+    c.ensures_on_raise("the reader's own error (a character that starts no form) is a plain syntax error - malformed, not incomplete - and is never raised at the end of the text", next_raise)
+    c.replay(lambda m, ctx, ob: COLL_REPLAY)
+    c.replay_without_model = True
+
+
 COLL_REPLAY = r'''
 from basilisp.lang import reader
 bad = []
